@@ -60,6 +60,11 @@ func VerifRunFrame() {
 	if stop {
 		img[0x100] = 0x10 // STOP: the CPU executes nothing more, the hardware keeps running
 	}
+	multi := vCfg("multi") != 0
+	if multi {
+		// PUSH BC (4) POP BC (3) JR -4 (3): a 10-cycle loop, so the 17556th cycle falls in the middle of an instruction
+		copy(img[0x100:], []byte{0xc5, 0xc1, 0x18, 0xfc})
+	}
 	gb := newVerifGameboy(img, withDisplay, false)
 	if withDisplay {
 		gb.display.CloseAfter = int(vU8("closeAfter") & 3)
@@ -97,6 +102,9 @@ func VerifRunFrame() {
 
 	if stop {
 		vAssert("cpu-stopped", gb.cpu.VerifPC() == pc0+1)
+	} else if multi {
+		// 1755 loops (17550 cycles), PUSH BC (4), two of POP BC's three cycles: the frame ends inside POP
+		vAssert("cpu-mid-instruction", gb.cpu.VerifPC() == pc0+2 && gb.cpu.VerifSP() == 0xfffd)
 	} else {
 		vAssert("cpu-17556-cycles", gb.cpu.VerifPC() == pc0+17556)
 	}
